@@ -117,6 +117,8 @@ def tlc(module, cfg=None, workers=None, simulate=None, depth=None, env=None,
     e["JAVA_TOOL_OPTIONS"] = " ".join(jopts)
     if env:
         e.update({k: str(v) for k, v in env.items()})
+    # TLC creates an (empty) tlc-<n> directory under java.io.tmpdir per run: keep it inside the metadir, which is removed
+    e["JAVA_TOOL_OPTIONS"] = (e.get("JAVA_TOOL_OPTIONS", "") + " -Djava.io.tmpdir=" + md).strip()
     cmd += ["-metadir", md, "-config", cfg]
     cmd += ["-workers", str(workers or 1)]
     if not deadlock:
